@@ -31,7 +31,13 @@ type Sel struct {
 	Next    *Sel      `json:"next,omitempty"` // next / sequence
 	Limit   int64     `json:"limit,omitempty"` // R: depth, -1 = none
 	StopAt  string    `json:"stop_at_hex,omitempty"`
+	As      string    `json:"as,omitempty"` // "~": the named reifier (see Reifiers)
 }
+
+// As is an interpret-as clause: the node is replaced by what the named reifier makes of it, and the
+// walk goes on with next on that node. (Generated only where the clause is handed to a node directly:
+// what it means as a union member or as the body of a recursion is not written down anywhere.)
+func As(name string, n *Sel) *Sel { return &Sel{Op: "~", As: name, Next: n} }
 
 func M() *Sel                       { return &Sel{Op: "."} }
 func Sub(from, to int64) *Sel       { return &Sel{Op: ".", Subset: &[2]int64{from, to}} }
@@ -55,6 +61,8 @@ func (s *Sel) String() string {
 		return "@"
 	case "all":
 		return "a(" + s.Next.String() + ")"
+	case "~":
+		return "~" + s.As + "(" + s.Next.String() + ")"
 	case "i":
 		return fmt.Sprintf("i%d(%s)", s.Index, s.Next)
 	case "r":
@@ -112,6 +120,8 @@ func (s *Sel) Spec() ref.Val {
 		return e("@", ref.Map())
 	case "all":
 		return e("a", ref.Map(ref.E(">", s.Next.Spec())))
+	case "~":
+		return e("~", ref.Map(ref.E("as", ref.Str(s.As)), ref.E(">", s.Next.Spec())))
 	case "i":
 		return e("i", ref.Map(ref.E("i", ref.Int(s.Index)), ref.E(">", s.Next.Spec())))
 	case "r":
@@ -307,6 +317,9 @@ func (s *Sel) BuilderSpec(ssb builder.SelectorSpecBuilder) (spec builder.Selecto
 	case "all":
 		n, ok := s.Next.BuilderSpec(ssb)
 		return ssb.ExploreAll(n), ok
+	case "~":
+		n, ok := s.Next.BuilderSpec(ssb)
+		return ssb.ExploreInterpretAs(s.As, n), ok
 	case "i":
 		n, ok := s.Next.BuilderSpec(ssb)
 		return ssb.ExploreIndex(s.Index, n), ok
